@@ -153,7 +153,10 @@ theorem C20_path : ∀ (p : List Nat) (as : List AVP), withPath as p = followPat
 termination_by p => p.length
 
 /-- obligation on the regenerated constant: the model's grouped type id -/
-theorem C20_gen : Gen.GroupedAVPType = T.groupedAVP := by decide
+theorem C20_gen : Gen.GroupedAVPType = T.groupedAVP ∧
+    -- a search is a function of the tree as it is: the message holds no index of it
+    Gen.messageStructFields = ["Header *Header", "AVP []*AVP", "dictionary *dict.Parser", "stream uint", "ctx context.Context"] ∧
+    Gen.groupedStructFields = ["AVP []*AVP"] := by decide
 
 /-- non-vacuity: a code repeated at three depths, a group inside a group, an empty group -/
 example :
